@@ -854,6 +854,34 @@ def run_property(prop, cfg, tier, known, only=None):
         elif devD and state["code"] == EXIT_OK:
             inconclusive(f"decode scenario {devD[0][0][:2]} deviates natively (`{devD[0][1]}` vs `{devD[0][0][2]}`) although every obligation was discharged")
 
+        # ---- body expectations (vlib/c15x.py): bytes / string / json decode, body_string, body_json, with_body
+        try:
+            from . import c15x
+            sampleX, failedX, devX = c15x.run_unit(light, z3, cv, ask, res, witnesses, inconclusive, binp)
+        except Exception as u:  # noqa: a crash of the unit is an encoder gap, never a verdict
+            sampleX, failedX, devX = {"unit": "body_expectations", "queries": [], "encoder_gap": f"{type(u).__name__}: {u}"}, [f"body_expectations: not in the shape the encoding knows ({type(u).__name__}: {str(u)[:120]})"], []
+            try:
+                devX = c15x.native_only(binp)
+            except Exception:
+                pass
+        res["samples"].append(sampleX)
+        res["validated_inputs"] = res.get("validated_inputs", 0) + len(c15x.CASES)
+        res["notes"].append(f"native body-expectation scenarios (kind x status x body through the command API): {len(c15x.CASES)}, deviations: {len(devX)}")
+        say(f"  [{'body_expectations':>22}] obligations={len(sampleX['queries'])}")
+        if failedX and devX:
+            os.makedirs(os.path.join(REPLAYS, prop), exist_ok=True)
+            (k_, st_, h_, e_), g_ = devX[0]
+            rp = os.path.join(REPLAYS, prop, f"body_expectations-{k_}-{st_}-{h_[:16]}.json")
+            json.dump({"property": prop, "engine": "mir", "module": "c15", "unit": "body_expectations", "expect": [k_, st_, h_], "expected": e_, "native": g_, "obligation": failedX[0]}, open(rp, "w"), indent=1)
+            say(f"VIOLATION property={prop} replay={rp}")
+            say(f"  {failedX[0][:260]}; expectation `{k_}` on a {st_} response with body {h_}: the property demands `{e_}`, real code -> `{g_}`")
+            res["findings"].append({"known": False, "unit": "body_expectations", "desc": failedX[0][:120], "replay": rp})
+            state["code"] = EXIT_VIOLATION
+        elif failedX:
+            inconclusive(f"{failedX[0][:220]} - but none of the {len(c15x.CASES)} native body-expectation scenarios deviates")
+        elif devX and state["code"] == EXIT_OK:
+            inconclusive(f"body-expectation scenario {devX[0][0][:3]} deviates natively (`{devX[0][1]}` vs `{devX[0][0][3]}`) although every obligation was discharged")
+
         # ---- translator / contract validation: every status through the real code vs the encoding's prediction
         tv0 = time.time()
         p = subprocess.run([binp, "all"], capture_output=True, text=True, timeout=600)
@@ -902,6 +930,13 @@ def replay_file(path):
     if not ok:
         say("native driver does not build")
         return EXIT_INCONCLUSIVE
+    if "expect" in rec:
+        k_, st_, h_ = rec["expect"]
+        p_ = subprocess.run([binp], input=f"X {k_} {st_} {h_}\n", capture_output=True, text=True, timeout=120)
+        got = p_.stdout.strip()
+        good = got.startswith("ERR") if rec["expected"] == "ERR*" else got == rec["expected"].strip()
+        say(f"expectation `{k_}` on a {st_} response with body {h_}: the property demands `{rec['expected']}`; real code now: `{got}`")
+        return EXIT_OK if good else EXIT_VIOLATION
     if "decode" in rec:
         l_, h_ = rec["decode"]
         p_ = subprocess.run([binp], input=f"D {l_} {h_}\n", capture_output=True, text=True, timeout=120)
